@@ -572,9 +572,20 @@ def _first_view_diff(ref, mine):
     return None
 
 
+def _fresh_process_state():
+    """put the process-wide lazily initialised state of the package back to what a fresh process has (the error page
+    template cache), so that interleavings of the FIRST requests of a process are among the schedules explored"""
+    try:
+        import ombott.error_render as er
+        del er._html_lns[:]
+    except Exception:
+        pass
+
+
 def run_case(case):
     kinds = case['kinds']
     n = len(kinds)
+    _fresh_process_state()
     if case['mode'] == 'stress':
         return _run_stress(case)
     prefix = tc.ombott_dir() if case['trace'] else None
